@@ -20,7 +20,8 @@ THEOREMS = [
     "C27_glue_xxhash", "C27_glue_xxhash_default", "C27_xxhash_accepted",
     "C27_lowercase_names", "C27_type_errors",
     "C27_hmac_def", "C27_hmac_key_short", "C27_hmac_key_long", "C27_hmac_key_length",
-    "C27_hex_inj", "C27_hex_length", "C27_dec_inj", "C27_i64_inj", "C27_sha512t_iv",
+    "C27_hex_inj", "C27_hex_length", "C27_dec_inj", "C27_i64_inj", "C27_digest_lengths", "C27_word_ranges",
+    "C27_sha512t_iv",
     "C27_vectors_md5", "C27_vectors_sha1", "C27_vectors_sha2", "C27_vectors_sha3", "C27_vectors_hmac",
     "C27_vectors_xxhash", "C27_vectors_seahash",
 ]
@@ -209,7 +210,7 @@ def gen_cases(run, n):
     variants += [(op, v) for op in ("sha2", "sha3", "xxhash") for v in canonical(op)]
     for op, v in variants:
         lens = list(range(0, 131)) + [x for x in BOUNDARY if x > 130] if thorough else \
-            BOUNDARY + [rng.randint(0, 300) for _ in range(6)]
+            BOUNDARY + [rng.randint(0, 300) for _ in range(4)]
         if thorough:
             lens += [rng.randint(131, 300) for _ in range(40)]
         for L in lens:
@@ -223,7 +224,7 @@ def gen_cases(run, n):
     for alg in canonical("hmac"):
         B = HMAC_BLOCK[alg]
         klens = [0, 1, B - 1, B, B + 1, 200] + ([20, 2 * B, 2 * B + 1, 131] if thorough else [rng.randint(2, 250)])
-        mlens = [0, 1, B - 9, B - 8, B - 1, B, rng.randint(0, 200)] + ([8, 28, 50, B + 1, 2 * B, 300] if thorough else [])
+        mlens = [0, B - 9, B - 8, B, rng.randint(0, 200)] + ([1, 8, 28, 50, B - 1, B + 1, 2 * B, 300] if thorough else [])
         i = 0
         for kl in klens:
             for ml in mlens:
